@@ -70,6 +70,8 @@ def run_shard(spec, shard):
         case = {"q": text, "ast": ast, "doc": doc}
         if r.random() < 0.08:
             case["exotic"] = r.randrange(1, 2**31)
+        if r.random() < 0.08:
+            case["alias"] = r.randrange(1, 2**31)
         e = ev.Evaluator()
         e.filter_stats = []
         res = e.query(ast, doc)
